@@ -3,7 +3,7 @@
    positive stay the Coq datatypes.  No Extract Constant directive is used. *)
 Require Extraction.
 Require Import ExtrOcamlBasic.
-From XtModel Require Import Base InputModel Utf8 UtfModel TranscodeModel FidelityModel FormatsModel IoModel DetectModel CliModel MsgpackModel.
+From XtModel Require Import Base InputModel Utf8 UtfModel TranscodeModel FidelityModel ChunkerModel FormatsModel IoModel DetectModel CliModel MsgpackModel.
 
 Extraction Language OCaml.
 Extraction "model.ml"
@@ -14,4 +14,5 @@ Extraction "model.ml"
   translate_history translate_history_w
   parse_args resolve_from extension_format run_cli
   detect_format start
+  chunker
   next_value_size transcode_slice transcode_reader mm_output mm_ok msgpack_matches DEPTH_LIMIT.
